@@ -31,6 +31,30 @@ let string_of_n (x : n) : string =
         if !carry > 0 then digits := !digits @ [!carry]) bits;
     String.concat "" (List.rev_map string_of_int !digits)
 
+(* ---- native binary64 instance of the model's arithmetic record (t-digest, HLL count) ---- *)
+let rec int64_of_pos (p : positive) : int64 = match p with
+  | XH -> 1L | XO r -> Int64.shift_left (int64_of_pos r) 1 | XI r -> Int64.logor (Int64.shift_left (int64_of_pos r) 1) 1L
+let int64_of_n (x : n) : int64 = match x with N0 -> 0L | Npos p -> int64_of_pos p
+let n_of_int64 (x : int64) : n = if Int64.equal x 0L then N0 else Npos (pos_of_int64 x)
+let fl (x : Obj.t) : float = Obj.obj x
+let float_of_bits_n (x : n) : Obj.t = Obj.repr (Int64.float_of_bits (int64_of_n x))
+(* canonical bit pattern: one NaN, +0 for -0 (the harness prints floats the same way) *)
+let bits_n_of_float (x : Obj.t) : n =
+  let f = fl x in
+  if f <> f then n_of_int64 0x7ff8000000000000L else if f = 0.0 then N0 else n_of_int64 (Int64.bits_of_float f)
+let farith : arith = {
+  azero = Obj.repr 0.0; aone = Obj.repr 1.0; ahalf = Obj.repr 0.5;
+  aadd = (fun a b -> Obj.repr (fl a +. fl b)); asub = (fun a b -> Obj.repr (fl a -. fl b));
+  amul = (fun a b -> Obj.repr (fl a *. fl b)); adiv = (fun a b -> Obj.repr (fl a /. fl b));
+  aleb = (fun a b -> fl a <= fl b); altb = (fun a b -> fl a < fl b); anan = Obj.repr nan }
+let limtbl : (int64 * int64, float) Hashtbl.t = Hashtbl.create 64
+let lim_missing = ref 0
+let flim (k : n) (q0 : Obj.t) : Obj.t =
+  let key = (int64_of_n k, int64_of_n (bits_n_of_float q0)) in
+  match Hashtbl.find_opt limtbl key with
+  | Some v -> Obj.repr v
+  | None -> incr lim_missing; Obj.repr nan
+
 let take_n toks k = (* returns (first k tokens as N list, rest) *)
   let rec go k acc l = if k = 0 then (List.rev acc, l) else match l with x :: r -> go (k - 1) (n_of_string x :: acc) r | [] -> failwith "short line" in
   go k [] toks
@@ -57,7 +81,10 @@ let () =
      while true do
        let line = input_line ic in
        match String.split_on_char ' ' line with
-       | ["C"; s; uu; m] -> st := s; u := n_of_string uu; mx := n_of_string m; hl := []; ops := []
+       | ["C"; s; uu; m] -> st := s; u := n_of_string uu; mx := n_of_string m; hl := []; ops := [];
+         Hashtbl.reset limtbl; lim_missing := 0
+       | ["L"; k; q0; l] ->
+         Hashtbl.replace limtbl (Int64.of_string ("0u" ^ k), Int64.of_string ("0u" ^ q0)) (Int64.float_of_bits (Int64.of_string ("0u" ^ l)))
        | ["H"; a; b; f] -> hl := ((n_of_string a, n_of_string b), n_of_string f) :: !hl
        | "O" :: toks -> ops := parse_op toks :: !ops
        | ["E"] ->
@@ -71,8 +98,10 @@ let () =
              | "res" -> res_case o
              | "lossy" -> lossy_case o
              | "heap" -> heap_case (h, o)
+             | "td" -> tdx_case farith float_of_bits_n bits_n_of_float flim o
              | s -> failwith ("unknown structure " ^ s)) in
          (match r with
+          | None when !lim_missing > 0 -> Printf.printf "F 0 S 888 %d\n" !lim_missing
           | None -> print_string "K\n"
           | Some (i, None) -> Printf.printf "F %s N\n" (string_of_n i)
           | Some (i, Some l) -> Printf.printf "F %s S %s\n" (string_of_n i) (String.concat " " (List.map string_of_n l)))
